@@ -343,6 +343,19 @@ def run_roundtrip(desc, seed):
                     continue
                 if not close(np.asarray(rx), np.asarray(ry), 1e-12, floor=1e-14):
                     add(viol, f"C14:roundtrip:later-op:{op}", f"{tag}: {op} gives different results on the original and on the loaded object")
+            # objects derived from the loaded one are independent of it: an in-place update of a derived object's prefactor (what the
+            # library itself does in evolve_exact) must leave the loaded object as it was
+            if desc["kind"] != "mpo" and not viol:
+                ref = M.dense_of(o)
+                for how, derive in (("copy()", lambda z: z.copy()), ("conj()", lambda z: z.conj()), ("scale(1)", lambda z: z.scale(1.0))):
+                    try:
+                        dd = derive(l)
+                        dd.coeff *= (0.5 + 0.5j) if np.iscomplexobj(ref) else 0.5
+                    except Exception:
+                        continue
+                    if not close(M.dense_of(l), ref, 1e-12, floor=1e-14):
+                        add(viol, f"C14:roundtrip:loaded-object-shares-prefactor:{how}", f"{tag}: 'd = loaded.{how}; d.coeff *= c' changed the loaded object itself (coeff now {l.coeff!r})")
+                        break
         mb = max(o.bond_dims)
     finally:
         shutil.rmtree(d, ignore_errors=True)
@@ -419,6 +432,14 @@ def run_roundtrip_tree(desc, seed):
                 x.canonicalise()
             if not close(TR.dense_state(a, order), TR.dense_state(b, order), 1e-12):
                 add(viol, "C14:roundtrip-tree:canonicalise", f"tree {parent}: canonicalise differs on the loaded object")
+        if not viol:
+            ref = TR.dense_state(l, order)
+            for how, derive in (("copy()", lambda z: z.copy()), ("to_complex()", lambda z: z.to_complex()), ("scale(1)", lambda z: z.scale(1.0))):
+                dd = derive(l)
+                dd.coeff *= 0.5
+                if not close(TR.dense_state(l, order), ref, 1e-12, floor=1e-14):
+                    add(viol, f"C14:roundtrip-tree:loaded-object-shares-prefactor:{how}", f"tree {parent}: 'd = loaded.{how}; d.coeff *= c' changed the loaded object itself (coeff now {l.coeff!r})")
+                    break
     except Exception as e:
         import sys
         import traceback
